@@ -317,8 +317,11 @@ func scenHTTPFault(mode string) *connRun {
 
 type httpCountHandler struct{ count func(int) }
 
-func (h *httpCountHandler) Echo(ctx context.Context, token int) (int, error) { h.count(token); return token, nil }
-func (h *httpCountHandler) Note(token int)                                    { h.count(token) }
+func (h *httpCountHandler) Echo(ctx context.Context, token int) (int, error) {
+	h.count(token)
+	return token, nil
+}
+func (h *httpCountHandler) Note(token int) { h.count(token) }
 
 // outage (C05): the link drops, the server is unreachable for k redials, then comes back; one retry-tagged and one
 // untagged call are in flight at the fault, one of each is issued during the outage; optionally a second fault right
@@ -430,11 +433,16 @@ func permutations(n int) [][]int {
 	return out
 }
 
+var connExtra []func(which string, seed uint64, tier string)
+
 func connFamily(seed uint64, tier string, args []string) {
 	r := newRng(seed)
 	which := "all"
 	if len(args) > 0 {
 		which = args[0]
+	}
+	for _, f := range connExtra {
+		f(which, seed, tier)
 	}
 	if which == "all" || which == "perm" {
 		maxN := 4
